@@ -201,7 +201,6 @@ def decRounds (c : Cipher) : List Nat → Bits → Except Err Bits
     let s ← Sinv (i % 8) l
     decRounds c is (s.xor k)
 
-def encRoundList : List Nat := List.range 31
 def decRoundList : List Nat := (List.range 31).reverse
 
 def decBits (c : Cipher) (R : Bits) : Except Err Bits := do
